@@ -4382,6 +4382,9 @@ impl Interpreter {
         // Iterate: call next() until done is true
         let mut values = Vec::new();
         let next_key = PropertyKey::String(self.intern("next"));
+        // The collected values are referenced only from `values` while later
+        // next() calls allocate: keep them rooted until they are handed over
+        let values_guard = self.heap.create_guard();
 
         loop {
             // Get the next method
@@ -4431,6 +4434,9 @@ impl Interpreter {
                     .unwrap_or(JsValue::Undefined)
             };
 
+            if let JsValue::Object(obj) = &iter_value {
+                values_guard.guard(obj.cheap_clone());
+            }
             values.push(iter_value);
         }
 
